@@ -117,7 +117,7 @@ var profiles = map[string]profile{
 	"C14": {minTargets: 2, maxTargets: 4, maxSteps: 40, small: true,
 		weights: map[string]int{"noti": 16, "reset": 4, "remove": 3, "add": 3, "sync": 1, "connect": 1, "connecterr": 1, "updmeta": 1, "updsize": 1}},
 	"C15": {minTargets: 1, maxTargets: 2, threshold: true, maxSteps: 40, small: true,
-		weights: map[string]int{"noti": 16, "reset": 1, "sync": 2, "connect": 4, "connecterr": 4, "updmeta": 3, "updsize": 1}},
+		weights: map[string]int{"noti": 16, "reset": 1, "sync": 2, "connect": 4, "connecterr": 4, "updmeta": 3, "updsize": 1, "add": 1}},
 }
 
 var kindOrder = []string{"noti", "reset", "remove", "add", "sync", "connect", "connecterr", "updmeta", "updsize"}
